@@ -228,6 +228,7 @@ def run(chk, F, tier):
             chk.ok("hatch", "poisson: MAX_LAMBDA comparison dominates construction of the rejection method", detail={"instance": inst["key"]},
                    nontrivial=(inst is ps[0]))
     return_path_rule(chk, F, tier)
+    trip_rule(chk, F, tier, reach, edges, infos)
     chk.notes.append("data-bounded recurrences (BTPE step 5.1, H2PE step 4.1 counting loops) are T2 loops without a constant bound; "
                      "the number of iterations is NOT decided here")
 
@@ -401,3 +402,229 @@ def return_path_rule(chk, F, tier):
     chk.evaluations += total
     chk.extra["return_path_cases"] = total
     chk.floor("return-path parameter cases", total, 500)
+
+
+# ------------------------------------------------------------------------------------------------ R5: counting loops are short
+TRIP_LIMIT = 10 ** 5
+
+
+def counting_loops(F, inst, fi=None):
+    """Natural loops with an exit that compares a +1-stepped counter with a loop-invariant integer local.
+    Returns [(header block, loop index, counter local, bound local, cmp op)]."""
+    from symterm import Terms, affine, root_local
+    fi = fi or FnInfo(F, inst)
+    if not fi.loops:
+        return []
+    T = Terms(F, inst)
+    out = []
+    for li, (h, body, backs) in enumerate(fi.loops):
+        indefs = {}
+        for bi in body:
+            b = inst["blocks"][bi]
+            for s in b["stmts"]:
+                if s["k"] == "assign" and not s["place"]["p"]:
+                    indefs.setdefault(s["place"]["l"], []).append(s["rv"])
+            t = b["term"]
+            if t and t["k"] == "call" and not t["dest"]["p"]:
+                indefs.setdefault(t["dest"]["l"], []).append(None)
+        # `for i in a..b` / `a..=b`: Iterator::next on a Range local inside the loop
+        for bi in sorted(body):
+            t = inst["blocks"][bi]["term"]
+            if t and t["k"] == "call" and t["func"].get("fn", {}).get("method") == "next" and (t["func"]["fn"].get("trait") or "").endswith("Iterator") and t["args"]:
+                itl = None
+                cur = t["args"][0]
+                for _ in range(6):
+                    # follow `&mut *r` / `&mut it` reborrows down to the iterator local
+                    if cur.get("k") not in ("copy", "move") or cur["p"]:
+                        break
+                    d0 = T.body.single_def(cur["l"])
+                    if d0 is None or d0[2] == "call" or d0[3]["rv"]["k"] != "ref":
+                        break
+                    pl = d0[3]["rv"]["place"]
+                    if not pl["p"]:
+                        itl = pl["l"]
+                        break
+                    if [q["k"] for q in pl["p"]] != ["deref"]:
+                        break
+                    cur = {"k": "copy", "l": pl["l"], "p": []}
+                if itl is not None and itl not in indefs:
+                    ty = F.types[inst["locals"][itl]["ty"]]
+                    if ty["k"] == "adt" and ty["path"] in ("core::ops::Range", "core::ops::RangeInclusive") and ty["args"] and F.types[ty["args"][0]]["k"] == "int":
+                        out.append((h, li, itl, None, "range"))
+        for (src, dst) in fi.loop_exits(body):
+            t = inst["blocks"][src]["term"]
+            if t["k"] != "switch" or t["discr"].get("k") not in ("copy", "move") or t["discr"]["p"]:
+                continue
+            d = T.body.single_def(t["discr"]["l"])
+            if d is None or d[2] == "call":
+                continue
+            rv = d[3]["rv"]
+            if rv["k"] != "binop" or rv["op"] not in ("Eq", "Ne", "Lt", "Le", "Gt", "Ge"):
+                continue
+            def root(op, depth=0):
+                if op.get("k") not in ("copy", "move") or op["p"] or depth > 12:
+                    return None
+                dd = T.body.single_def(op["l"])
+                if dd is None or dd[2] == "call":
+                    return op["l"]
+                r_ = dd[3]["rv"]
+                if r_["k"] == "use" and r_["op"].get("k") in ("copy", "move") and not r_["op"]["p"]:
+                    return root(r_["op"], depth + 1)
+                return op["l"]
+            ra, rb = root(rv["a"]), root(rv["b"])
+            if ra is None or rb is None:
+                continue
+            for c, bnd in ((ra, rb), (rb, ra)):
+                if F.types[inst["locals"][c]["ty"]]["k"] != "int" or F.types[inst["locals"][bnd]["ty"]]["k"] != "int":
+                    continue
+                if bnd in indefs or c not in indefs:
+                    continue
+                steps = []
+                for rvd in indefs[c]:
+                    if rvd is None:
+                        steps.append(None)
+                        continue
+                    if rvd["k"] == "use":
+                        a = affine(T.of_operand(rvd["op"]))
+                    elif rvd["k"] == "binop":
+                        from symterm import BIN
+                        a = affine((BIN[rvd["op"]], T.of_operand(rvd["a"]), T.of_operand(rvd["b"]))) if rvd["op"] in BIN else None
+                    else:
+                        a = None
+                    steps.append(a)
+                cname = T.var(c)[1]
+                if steps and all(a is not None and a[0] == cname and a[1] == 1 and a[2] == 1 and a[3] == 1 for a in steps):
+                    out.append((h, li, c, bnd, rv["op"]))
+    return out
+
+
+TRIP_SHARDS = 8
+
+
+def _trip_family(args):
+    name, bits, shard = args
+    import rules_c03
+    from absint import Interp, Rf, Top
+    from axioms import Axioms
+    F = _G5["F"]
+    watch = _G5["watch"]
+    fam = next(f for f in rules_c03.FAMILIES if f["name"] == name)
+    ax = Axioms(F)
+    out = {"family": name, "bits": bits, "cases": 0, "runs": 0, "entries": 0, "long": [], "missing": None}
+    sinst = rules_c03.find_sample_inst(F, fam["sample"], bits)
+    # constructor cases whose outcome is "Ok or an error" are used too (their Ok payload over-approximates the valid parameter sets
+    # of the cell): a *definite* lower bound on a trip count still holds for every concrete state it covers
+    cases = rules_c03.envelope_cases(F, ax, fam, bits, "quick", extremes=True, allow_mixed=True) if sinst else None
+    if sinst is None or cases is None:
+        out["missing"] = fam["sample"]
+        return out
+    rng = Rf(None, Top(), True)
+
+    def one(cname, selfv, tag):
+        ip = Interp(F, ax)
+        ip.watch = watch
+        ip.trips = []
+        # trace partitioning on exact integers: a state in which the bound is one exact value (a saturated cast, a pinned draw)
+        # is kept apart from the states of the other branches instead of being joined with them
+        ip.partition = True
+        ip.run_root(sinst, [Rf(None, selfv, False), rng])
+        out["runs"] += 1
+        for (ikey, li, up, down, vc, vb) in ip.trips:
+            out["entries"] += 1
+            # the counter steps by +1 until it meets the bound: at least `up` = min(bound) - max(counter) iterations
+            if up > TRIP_LIMIT:
+                out["long"].append({"inst": ikey, "loop": li, "case": cname, "tag": tag, "min_iterations": up, "counter": vc, "bound": vb})
+    for ci, (cname, cells, selfv) in enumerate(cases):
+        if ci % TRIP_SHARDS != shard:
+            continue
+        out["cases"] += 1
+        ax.tagged = None
+        ax.draw_sites = {}
+        one(cname, selfv, None)
+        sites = dict(ax.draw_sites)
+        for skey, (kind, specials, sk, sb) in sorted(sites.items(), key=lambda kv: str(kv[0])):
+            for si, sp in enumerate(specials):
+                ax.tagged = (skey, si)
+                path, sspan = rules_c03.site_desc(F, sk, sb)
+                one(cname, selfv, "%s draw at `%s` exactly %s" % (kind, rules_c03.src_line(F, sspan), sp))
+        ax.tagged = None
+    return out
+
+
+def trip_rule(chk, F, tier, reach, edges, infos):
+    """Counting loops (`i += 1 ... until i == bound`) on sampling paths: in no abstract state that enters the loop — generic draws,
+    and every single draw pinned to one of its boundary values — may the distance between the counter and its bound be
+    *definitely* larger than 10^5 (every concrete state in that abstract state would walk that many iterations)."""
+    import multiprocessing
+    import os
+    import rules_c03
+    watch = {}
+    nl = 0
+    owners = set()
+    for k in sorted(reach):
+        inst = F.by_key[k]
+        for (h, li, c, bnd, op) in counting_loops(F, inst, infos.get(k)):
+            watch.setdefault((k, h), []).append((li, c, bnd))
+            owners.add(k)
+            nl += 1
+    chk.floor("counting loops on sampling paths (BTPE step 5.1 and H2PE step 4.1, both directions each)", nl, 4)
+    chk.extra["counting_loops"] = sorted("%s|loop#%d" % (k, li) for (k, h), v in watch.items() for (li, c, b) in v)
+    # families whose sampler can reach a function with a counting loop
+    fams = []
+    for f in rules_c03.FAMILIES:
+        for b in f.get("bits", (32, 64)):
+            sinst = rules_c03.find_sample_inst(F, f["sample"], b)
+            if sinst is None:
+                continue
+            seen, st = set(), [sinst["key"]]
+            while st:
+                x = st.pop()
+                if x in seen:
+                    continue
+                seen.add(x)
+                st.extend(edges.get(x, ()))
+            if seen & owners:
+                fams += [(f["name"], b, sh) for sh in range(TRIP_SHARDS)]
+    chk.floor("families that reach a counting loop", len(fams) // TRIP_SHARDS, 2)
+    _G5["F"] = F
+    _G5["watch"] = watch
+    ncpu = min(16, os.cpu_count() or 4)
+    if ncpu > 1 and len(fams) > 1 and not os.environ.get("VERIF_SERIAL"):
+        with multiprocessing.get_context("fork").Pool(min(ncpu, len(fams))) as pool:
+            res = pool.map(_trip_family, fams, chunksize=1)
+    else:
+        res = [_trip_family(t) for t in fams]
+    entries = runs = 0
+    merged = {}
+    for r in res:
+        m = merged.setdefault((r["family"], r["bits"]), {"family": r["family"], "bits": r["bits"], "cases": 0, "runs": 0, "entries": 0, "long": [], "missing": None})
+        for f_ in ("cases", "runs", "entries"):
+            m[f_] += r[f_]
+        m["long"] += r["long"]
+        m["missing"] = m["missing"] or r["missing"]
+    for r in merged.values():
+        key = "%s:f%d" % (r["family"], r["bits"])
+        if r["missing"]:
+            chk.violation("trip-count", key + ":anchor", "sampler %s not found" % r["missing"])
+            continue
+        entries += r["entries"]
+        runs += r["runs"]
+        seen = set()
+        for l in r["long"]:
+            inst = F.by_key[l["inst"]]
+            tg = (l["tag"] or "generic draws").split(" exactly ")
+            vkey = "%s|%s|loop#%d|%s" % (r["family"], inst["path"], l["loop"], l["tag"] or "generic")
+            if vkey in seen:
+                continue
+            seen.add(vkey)
+            h = next(hh for (kk, hh), v in watch.items() if kk == l["inst"] and any(li == l["loop"] for li, _, _ in v))
+            chk.violation("trip-count", vkey, "%s: the counting loop #%d in %s is entered with counter %s and bound %s, i.e. at least %s iterations, for parameters %s with the %s "
+                          "(limit %d): sampling effectively never returns" % (r["family"], l["loop"], inst["path"], l["counter"], l["bound"], l["min_iterations"], l["case"],
+                                                                            l["tag"] or "generic draws", TRIP_LIMIT),
+                          where=span_str(inst["blocks"][h]["term"].get("span") or inst.get("span")))
+        if not r["long"]:
+            chk.ok("trip-count", "%s: %d abstract loop entries over %d runs (%d parameter cases x generic + tagged draws): none is definitely longer than %d"
+                   % (key, r["entries"], r["runs"], r["cases"], TRIP_LIMIT), nontrivial=True)
+    chk.evaluations += runs
+    chk.extra["trip_rule"] = {"runs": runs, "loop_entries": entries}
+    chk.floor("abstract entries into counting loops", entries, 20)
